@@ -54,6 +54,20 @@ itself (output, for iterable, loop body, call block, filter argument, do, block,
 attribute and item of the bound value).  Same oracle: the unmarked twin bound
 to the name must be invoked, the marked one never, and render raises
 SecurityError.
+
+Fifth part, *combinations of the two flags*: a callable may carry both
+unsafe_callable and alters_data, each true, false or absent (a base class or a
+decorator that spells out both, a subclass / instance / call site that flips
+one).  The attributes sit on a function, are set by a decorator that always
+sets both, by jinja2.sandbox.unsafe plus an explicit alters_data, on the
+function behind a bound method / classmethod / staticmethod, on a callable
+instance, on its class, inherited from a base class that spells out defaults,
+split over base class and subclass, on an instance overriding a class that says
+True, on a functools.partial, on a class the template instantiates, on a
+pass_context function.  Reached along the same obtain x wrapper x site grammar;
+the flag-free twin of the construction must run; then: refused (0 invocations,
+SecurityError) iff unsafe_callable is True or alters_data is True on the object
+the template calls, otherwise invoked without SecurityError.
 """
 from __future__ import annotations
 
@@ -62,7 +76,9 @@ import json
 
 PID = "C18"
 LEVEL = "exploration"
-TECHNIQUE = ("recording unsafe callables with an unmarked control twin over a composed reach-path grammar; "
+TECHNIQUE = ("recording unsafe callables with an unmarked control twin over a composed reach-path grammar "
+             "(single marks, and every true/false/absent combination of the two marker attributes over 14 "
+             "placements, judged in both directions); "
              "state-model monitor over multi-step mark/policy histories on one environment; the same "
              "twin oracle over names resolved by engine helpers (i18n `_` alias, trans tag) and shadowed "
              "builtin/special names in environments with extensions loaded")
@@ -95,8 +111,18 @@ RULE = ("case = (obtain form x alias wrapper x call site x argument form x calla
         "the i18n, do, loopcontrols and debug extensions: every (use, name, binding) row once with rotating "
         "mark/kind (quick: `_`/trans rows all, name-call rows every second one by seed parity; thorough: all "
         "rows x all marks) plus seeded sampling; counted only when the unmarked twin bound to the name is "
-        "invoked")
-LEVEL_TEXT = ("resolved names: 0 invocations and SecurityError on every reached (name, binding, use) row "
+        "invoked; flag-combination cases = ((unsafe_callable, alters_data) in {absent, false, true}^2 minus "
+        "(absent, absent) x 14 placements of the attributes [function, both-flags decorator, unsafe decorator "
+        "plus alters_data, function of a method / classmethod / staticmethod, callable instance, its class, "
+        "base class with spelled-out defaults + subclass, split over base and subclass, instance over a "
+        "class that says True, partial, instantiated class, pass_context function] x obtain x wrapper x site "
+        "x arguments x environment kind x sync/async x extension set): every (placement, combination) row "
+        "with 6 (thorough: all 62) rotating sites plus seeded sampling; counted only when the flag-free twin "
+        "of the same construction is invoked; both directions judged (a true flag refuses, false/absent "
+        "flags do not)")
+LEVEL_TEXT = ("flag combinations: on every reached (placement, unsafe_callable, alters_data) row the call was "
+              "refused iff one of the two attributes is True; "
+              "resolved names: 0 invocations and SecurityError on every reached (name, binding, use) row "
               "with the i18n/do/loopcontrols/debug extensions loaded; "
               "builtin-method policies: SecurityError on every reached call the override rejects, for "
               "literal and context receivers alike; "
@@ -110,6 +136,7 @@ ASSUMPTIONS = [
     "histories: the override additionally rejects objects (or bound receivers) carrying vt_frozen and objects whose vt_name is in the environment's deny-list; marks are set on and removed from the object the template calls (function, instance, partial, class) or the function/class shared by both siblings; the unsafe mark is removed by deleting the attribute(s) jinja2.sandbox.unsafe was observed to add",
     "builtin-method policies: builtin methods cannot record their invocation, so the observation is the documented outcome (SecurityError from render) under a policy that rejects the method, given that the structural twin of the template (context variable in place of the literal) evaluates the call under a policy that admits it",
     "resolved names: a call the engine makes because the template wrote `_(...)` or a trans block counts as a call written in the template (`_` is documented as the alias of gettext and trans as calling gettext/ngettext/pgettext/npgettext); the callable is bound to the name by the template, the render data or env.globals. Translation callables the application registers through install_gettext_callables / install_null_translations are application hooks and are never marked",
+    "flag combinations: the attribute values are the booleans True / False or the attribute is absent (other truthy values are not generated); 'on the object the template calls' means ordinary attribute lookup on that object (instance, then class, then base classes; a bound method shows the attributes of its function), which is how both documented markers (the unsafe decorator, func.alters_data = True) are written; attributes set only on the __call__ function of a callable object are not generated",
     "extensions other than i18n, do, loopcontrols and debug are not loaded; only the resolved-name part runs with more than the do extension",
     "histories also require the reverse direction: once a mark or deny-list entry is removed the call must be let through again (reported under history-wrongly-blocked keys)",
 ]
@@ -134,7 +161,10 @@ FLOORS = {
                            "helper_trans_cases": 60, "helper_shadowed_name_cases": 450,
                            "helper_async_cases": 170, "helper_i18n:none": 190,
                            "helper_i18n:null-old": 190, "helper_i18n:null-new": 190,
-                           "extension_env_cases": 1000}},
+                           "extension_env_cases": 1000,
+                           "flag_cases": 270, "flag_security_errors": 180, "flag_allowed_calls": 90,
+                           "flag_both_attributes_present_cases": 170,
+                           "flag_one_false_other_true_cases": 85, "flag_async_cases": 75}},
     "thorough": {"evaluations": 60000, "distinct": 30000,
                  "counters": {"twin_invocations": 30000, "marked_renders": 30000,
                               "security_errors": 30000, "async_cases": 8000,
@@ -153,7 +183,11 @@ FLOORS = {
                               "helper_trans_cases": 800, "helper_shadowed_name_cases": 4500,
                               "helper_async_cases": 1800, "helper_i18n:none": 2000,
                               "helper_i18n:null-old": 2000, "helper_i18n:null-new": 2000,
-                              "extension_env_cases": 20000}},
+                              "extension_env_cases": 20000,
+                              "flag_cases": 5400, "flag_security_errors": 3500,
+                              "flag_allowed_calls": 1850,
+                              "flag_both_attributes_present_cases": 3300,
+                              "flag_one_false_other_true_cases": 1700, "flag_async_cases": 1600}},
 }
 
 # ------------------------------------------------------------------ grammar
@@ -1691,6 +1725,259 @@ def helper_random_case(rng):
             return c
 
 
+# ------------------------------------------------ combinations of the two flags
+# Fifth part: the documentation names two markers - jinja2.sandbox.unsafe (sets
+# unsafe_callable = True) and the Django convention alters_data = True - and
+# "safe unless" either is given.  Applications spell the flags out (a base class
+# or a decorator that sets both, a subclass or call site that flips one), so a
+# callable may carry both attributes in any combination of true / false /
+# absent.  Expected verdict: refused iff unsafe_callable is True or alters_data
+# is True, whatever the other attribute says and wherever the attributes sit.
+FLAG_VALUES = ["absent", "false", "true"]
+# placement: where the attributes sit relative to the object the template calls
+FLAG_PLACEMENTS = [
+    "function",                    # attributes on a plain function
+    "decorator_both",              # a decorator that always sets both attributes
+    "unsafe_decorator",            # jinja2.sandbox.unsafe for the true case, alters_data set besides it
+    "method_function",             # on the function of a method; the template calls the bound method
+    "classmethod_function",
+    "staticmethod_function",
+    "callable_instance",           # on an instance with __call__
+    "callable_class",              # class attributes of a class whose instances are called
+    "inherited_base_defaults",     # base class spells out both as False, subclass overrides the given ones
+    "inherited_split",             # unsafe_callable on the base class, alters_data on the subclass
+    "instance_over_true_class",    # class says True for both, the instance overrides the given ones
+    "partial",                     # attributes on a functools.partial object
+    "klass",                       # class attributes of a class the template instantiates
+    "pass_context_function",
+]
+
+
+def flag_effective(placement, u, a):
+    """The value each attribute has on the object the template calls (by
+    construction of make_flagged), or None if the combination cannot be built."""
+    if placement == "unsafe_decorator" and u != "true":
+        return None
+    if placement in ("decorator_both", "inherited_base_defaults"):
+        return ("false" if u == "absent" else u, "false" if a == "absent" else a)
+    if placement == "instance_over_true_class":
+        return ("true" if u == "absent" else u, "true" if a == "absent" else a)
+    return (u, a)
+
+
+def make_flagged(placement, u, a, rec, twin=False):
+    """-> (f, o) with o.m the callable too.  twin: the same construction with
+    no flag attribute anywhere."""
+    from jinja2 import pass_context
+    from jinja2.sandbox import unsafe
+
+    def put(obj, which=("u", "a"), absent_as=None):
+        if twin:
+            return obj
+        for w, val, attr in (("u", u, "unsafe_callable"), ("a", a, "alters_data")):
+            if w not in which:
+                continue
+            v = absent_as if val == "absent" else val
+            if v is not None:
+                setattr(obj, attr, v == "true")
+        return obj
+
+    def body(*args, **kwargs):
+        rec.calls += 1
+        return Ret(1)
+
+    def fresh():
+        def fn(*args, **kwargs):
+            return body()
+        return fn
+
+    if placement == "function":
+        f = put(fresh())
+    elif placement == "decorator_both":
+        def flags(unsafe_callable=False, alters_data=False):
+            def deco(fn):
+                fn.unsafe_callable = unsafe_callable
+                fn.alters_data = alters_data
+                return fn
+            return deco
+        f = fresh() if twin else flags(unsafe_callable=u == "true", alters_data=a == "true")(fresh())
+    elif placement == "unsafe_decorator":
+        f = fresh() if twin else put(unsafe(fresh()), which=("a",))
+    elif placement in ("method_function", "classmethod_function", "staticmethod_function"):
+        def m(self_or_cls=None, *args, **kwargs):
+            return body()
+        if placement == "staticmethod_function":
+            fn = put(fresh())
+            wrapped = staticmethod(fn)
+        elif placement == "classmethod_function":
+            wrapped = classmethod(put(m))
+        else:
+            wrapped = put(m)
+        O = type("O", (), {"meth": wrapped})
+        f = O().meth
+    elif placement == "callable_instance":
+        CO = type("CO", (), {"__call__": lambda self, *args, **kwargs: body()})
+        f = put(CO())
+    elif placement == "callable_class":
+        CO = type("CO", (), {"__call__": lambda self, *args, **kwargs: body()})
+        f = put(CO)()
+    elif placement == "inherited_base_defaults":
+        ns = {"__call__": lambda self, *args, **kwargs: body()}
+        if not twin:
+            ns.update(unsafe_callable=False, alters_data=False)
+        Base = type("Command", (), ns)
+        f = put(type("SubCommand", (Base,), {}))()
+    elif placement == "inherited_split":
+        Base = put(type("Base", (), {"__call__": lambda self, *args, **kwargs: body()}), which=("u",))
+        f = put(type("Sub", (Base,), {}), which=("a",))()
+    elif placement == "instance_over_true_class":
+        ns = {"__call__": lambda self, *args, **kwargs: body()}
+        if not twin:
+            ns.update(unsafe_callable=True, alters_data=True)
+        f = put(type("Loud", (), ns)())
+    elif placement == "partial":
+        f = put(functools.partial(body, 0))
+    elif placement == "klass":
+        class K(int):
+            def __new__(cls, *args, **kwargs):
+                body()
+                return int.__new__(cls, 1)
+
+            def __call__(self, *args, **kwargs):
+                return 1
+
+            def __getitem__(self, i):
+                return 1
+
+            def __iter__(self):
+                return iter([1])
+        f = put(K)
+    elif placement == "pass_context_function":
+        @pass_context
+        def f(c, *args, **kwargs):
+            return body()
+        f = put(f)
+    else:
+        raise AssertionError(placement)
+
+    class Holder:
+        pass
+
+    o = Holder()
+    o.m = f
+    return f, o
+
+
+def flag_render(case, twin):
+    from jinja2.exceptions import SecurityError
+
+    rec = Rec()
+    f, o = make_flagged(case["placement"], case["u"], case["a"], rec, twin=twin)
+    source, templates = compose(case)
+    env = get_env(case["env"], case["async"], templates, case.get("ext", "do"))
+    data = {"f": f, "o": o, "d": {"f": f, "k": {"g": f}}, "l": [f], "t": (f,),
+            "nested": [{"f": [f]}]}
+    try:
+        out = env.from_string(source).render(**data)
+        exc = None
+    except SecurityError as e:
+        out, exc = None, ("SecurityError", str(e)[:200])
+    except Exception as e:
+        out, exc = None, (type(e).__name__, str(e)[:200])
+    return rec.calls, out, exc, source, templates, f
+
+
+def flag_valid(case):
+    if case["wrap"] == "aloop" and not case["async"]:
+        return False
+    return flag_effective(case["placement"], case["u"], case["a"]) is not None
+
+
+def run_flag_case(ctx, case, count=True):
+    """-> True if reached (the flag-free twin of the same construction runs)."""
+    calls, out, exc, source, templates, _ = flag_render(case, twin=True)
+    if count:
+        ctx.ev()
+        ctx.count("flag_twin_renders")
+    if calls == 0 or (exc is not None and exc[0] == "SecurityError"):
+        if count:
+            ctx.count("flag_unreached")
+        return False
+    ue, ae = flag_effective(case["placement"], case["u"], case["a"])
+    refused = ue == "true" or ae == "true"
+    mcalls, mout, mexc, _, _, f = flag_render(case, twin=False)
+    # the construction must expose what flag_effective says (harness self-check)
+    seen = tuple("absent" if not hasattr(f, n) else str(getattr(f, n)).lower()
+                 for n in ("unsafe_callable", "alters_data"))
+    if seen != (ue, ae):
+        ctx.inconc(f"harness: {case['placement']} built with {case['u']}/{case['a']} exposes {seen}, "
+                   f"expected {(ue, ae)}")
+        return False
+    sec = mexc is not None and mexc[0] == "SecurityError"
+    if count:
+        ctx.ev()
+        ctx.count("flag_cases")
+        ctx.count("flag_placement:" + case["placement"])
+        ctx.count(f"flag_combo:{ue}/{ae}")
+        ctx.count("flag_refused_expected" if refused else "flag_allowed_expected")
+        if ue != "absent" and ae != "absent":
+            ctx.count("flag_both_attributes_present_cases")
+        if refused and "false" in (ue, ae):
+            ctx.count("flag_one_false_other_true_cases")
+        if case["async"]:
+            ctx.count("flag_async_cases")
+        ctx.dist(["flag"] + [case[k] for k in ("placement", "u", "a", "obtain", "wrap", "site", "args",
+                                               "env", "async")] + [case.get("ext", "do")])
+    full = dict(case, flags=True, source=source, templates=templates)
+    mech = f"unsafe_callable={ue}:alters_data={ae}:on={case['placement']}"
+    info = (f"{source!r} {templates or ''} (env {case['env']}, extensions {case.get('ext', 'do')}, "
+            f"async={case['async']}); the object the template calls has unsafe_callable {ue}, "
+            f"alters_data {ae} ({case['placement']}, written {case['u']}/{case['a']})")
+    if refused:
+        if mcalls:
+            ctx.violation("flag-combination-invoked:" + mech,
+                          f"a callable that carries a true marker was invoked {mcalls}x by {info}; "
+                          f"outcome {mexc or mout!r}", full)
+        elif not sec:
+            ctx.violation("flag-combination-no-security-error:" + mech,
+                          f"flag-free twin is invoked {calls}x, the marked callable was not, but {info} "
+                          f"gave {mexc or mout!r} instead of SecurityError", full)
+        elif count:
+            ctx.count("flag_security_errors")
+    else:
+        if sec or not mcalls:
+            ctx.violation("flag-combination-wrongly-blocked:" + mech,
+                          f"neither marker is true, the flag-free twin is invoked {calls}x, but {info} "
+                          f"gave invocations={mcalls}, outcome {mexc or mout!r}", full)
+        elif count:
+            ctx.count("flag_allowed_calls")
+    return True
+
+
+def flag_rows():
+    return [(p, u, a) for p in FLAG_PLACEMENTS for u in FLAG_VALUES for a in FLAG_VALUES
+            if flag_effective(p, u, a) is not None and (u, a) != ("absent", "absent")]
+
+
+def flag_case_for(j, placement, u, a, site):
+    obs, wrs = list(OBTAIN), [w for w in WRAP if w != "aloop"]
+    return {"placement": placement, "u": u, "a": a, "obtain": obs[j % len(obs)],
+            "wrap": wrs[(j // 2) % len(wrs)] if j % 3 == 0 else "none", "site": site,
+            "args": ARGS[j % len(ARGS)], "env": ENVS[j % 3], "async": j % 4 == 0,
+            "ext": EXTS[(j // 3) % 4]}
+
+
+def flag_random_case(rng):
+    while True:
+        c = {"placement": rng.choice(FLAG_PLACEMENTS), "u": rng.choice(FLAG_VALUES),
+             "a": rng.choice(FLAG_VALUES), "obtain": rng.choice(list(OBTAIN)),
+             "wrap": rng.choice(list(WRAP)), "site": rng.choice(list(SITES)),
+             "args": rng.choice(ARGS), "env": rng.choice(ENVS), "async": rng.random() < 0.3,
+             "ext": rng.choice(EXTS)}
+        if flag_valid(c) and (c["u"], c["a"]) != ("absent", "absent"):
+            return c
+
+
 def run(ctx):
     import warnings
 
@@ -1777,6 +2064,27 @@ def run(ctx):
     for _ in range(60 if quick else 2500):
         run_helper_case(ctx, helper_random_case(rng))
     ctx.count("helper_core_rows", nhelp)
+    # combinations of unsafe_callable / alters_data (true, false, absent) x where they sit
+    sites = list(SITES)
+    nflag = 0
+    fs = 0
+    per_row = 6 if quick else len(sites)
+    for i, (placement, u, a) in enumerate(flag_rows()):
+        if not ctx.mine(i):
+            continue
+        for k in range(per_row):
+            j = i * 7 + k * 11 + ctx.seed
+            case = flag_case_for(j, placement, u, a, sites[j % len(sites)])
+            if not flag_valid(case):
+                continue
+            nflag += 1
+            if run_flag_case(ctx, case) and fs < 1 and ctx.shard in (9, 10):
+                fs += 1
+                ctx.sample(dict(case, source=compose(case)[0]))
+    rng = ctx.rng("flagrand")
+    for _ in range(30 if quick else 1000):
+        run_flag_case(ctx, flag_random_case(rng))
+    ctx.count("flag_core_cases", nflag)
     rng = ctx.rng("rand")
     n_max = 900 if quick else 40000
     i = 0
@@ -1798,6 +2106,8 @@ def replay(ctx, case):
         run_history(ctx, case, count=False)
     elif case.get("helper"):
         run_helper_case(ctx, case, count=False)
+    elif case.get("flags"):
+        run_flag_case(ctx, case, count=False)
     elif case.get("bm"):
         run_bm_case(ctx, case, count=False)
     else:
